@@ -68,13 +68,28 @@ def _other_unit(n):
     return _G["units"]["ta"] if u.dimensions == _G["units"]["la"].dimensions else _G["units"]["la"]
 
 
-def mk(kind, n, pos):
+def mk(kind, n, pos, unit=None):
     """Build the operand of kind `kind` (see Ufunc.tla) with unit name n."""
     np = _G["np"]
     ua, uq = _G["ua"], _G["uq"]
     a, b = BASE[pos]
-    if kind in ("q", "a", "az", "c", "lq", "lqm", "tq", "tqa"):
+    if unit is not None:
+        u = unit
+    elif kind in ("q", "a", "az", "c", "lq", "lqm", "tq", "tqa", "tlq", "tlqm", "lqm3", "lzq", "lbq", "lqb"):
         u = _G["units"][n]
+    # sequences mixing bare numbers and quantities, tuples, a three-element mixed list (Ufunc.tla: HetList, ListQ)
+    if kind == "lzq":
+        return [0.0, uq(b, u)]
+    if kind == "lbq":
+        return [a, uq(b, u)]
+    if kind == "lqb":
+        return [uq(a, u), b]
+    if kind == "tlq":
+        return (uq(a, u), uq(b, u))
+    if kind == "tlqm":
+        return (uq(a, u), uq(b, _other_unit(n)))
+    if kind == "lqm3":
+        return [uq(a, u), uq(b, u), uq(2.0, _other_unit(n))]
     # value classes (Ufunc.tla): tiny / denormal / NaN / inf are NOT zero; -0.0 IS zero
     if kind == "ts":
         return 1.0e-20
@@ -132,7 +147,7 @@ def mk(kind, n, pos):
 def snap(x):
     """numbers + unit of an operand (for the frame condition)."""
     np = _G["np"]
-    if isinstance(x, list):
+    if isinstance(x, (list, tuple)):
         return ("list", tuple(snap(e) for e in x))
     if isinstance(x, np.ndarray):
         # repr of the numbers: NaN must compare equal to itself, -0.0 must differ from 0.0
@@ -145,6 +160,12 @@ def uname(u):
         return ""
     if u.is_dimensionless and float(u.base_value) == 1.0:
         return "nd"
+    if _G.get("hnames") and str(u.expr) == "hx":
+        # history cases: both operands' units are spelled hx; tell them apart by what they are
+        for hu, name in _G["hnames"]:
+            if hu.dimensions == u.dimensions and float(hu.base_value) == float(u.base_value):
+                return name
+        return "?"
     return _G["byexpr"].get(str(u.expr), "?")
 
 
@@ -189,11 +210,11 @@ IOPER = {
     "divide": operator.itruediv,
     "floor_divide": operator.ifloordiv,
 }
-BSHAPE = {"s": (), "v": (2,), "c": (2, 1), "m": (2, 2)}
+BSHAPE = {"s": (), "v": (2,), "c": (2, 1), "m": (2, 2), "w": (3,)}
 
 
 def _shape(kind):
-    return "s" if kind in ("q", "bs", "z", "ts", "ds", "nz", "ns", "is", "tq") else "c" if kind == "c" else "v"
+    return "s" if kind in ("q", "bs", "z", "ts", "ds", "nz", "ns", "is", "tq") else "c" if kind == "c" else "w" if kind == "lqm3" else "v"
 
 
 def _bc(a, b):
@@ -275,20 +296,63 @@ def call_arrfn(case, x0, x1):
     raise ValueError(op)
 
 
+HDEF = {"la": (1.0, "length"), "lb": (1024.0, "length"), "ta": (1.0, "time"), "ma": (1.0, "mass"), "nq": (0.25, "dimensionless")}
+
+
+def _history_units(case):
+    """Registry history (Ufunc/MC_C01 `h`): the symbol hx is defined as n0, the first unit object is taken, hx is
+    re-defined as n1 (modify by a quantity / remove + add / a second registry), the second unit object is taken."""
+    from unyt import dimensions as D
+    from unyt.unit_registry import UnitRegistry
+
+    s0, d0 = HDEF[case["n0"]]
+    s1, d1 = HDEF[case["n1"]]
+    reg = UnitRegistry()
+    reg.add("hx", s0, getattr(D, d0))
+    u0 = _G["Unit"]("hx", registry=reg)
+    h = case["h"]
+    if h == "modify":
+        reg.modify("hx", _G["uq"](1.0, _G["units"][case["n1"]]))
+    elif h == "readd":
+        reg.remove("hx")
+        reg.add("hx", s1, getattr(D, d1))
+    elif h == "tworeg":
+        reg = UnitRegistry()
+        reg.add("hx", s1, getattr(D, d1))
+    else:
+        raise ValueError(h)
+    u1 = _G["Unit"]("hx", registry=reg)
+    return u0, u1
+
+
 def observe(case):
+    hist = case.get("h", "none") != "none"
+    _G["hnames"] = None
+    if hist:
+        hu0, hu1 = _history_units(case)
+        _G["hnames"] = [(hu0, case["n0"]), (hu1, case["n1"])]
+    else:
+        hu0 = hu1 = None
+    try:
+        return _observe(case, hu0, hu1)
+    finally:
+        _G["hnames"] = None
+
+
+def _observe(case, hu0, hu1):
     np = _G["np"]
     fam = case["fam"]
     units = _G["units"]
     inplace_target = False
     if fam in ("ufunc", "arrfn", "setitem"):
-        x0 = mk(case["k0"], case["n0"], 0)
+        x0 = mk(case["k0"], case["n0"], 0, hu0)
         if fam == "arrfn" and case["op"] == "fill_diagonal":
-            x0 = _G["ua"](np.array([[3.0, 2.5], [2.5, 3.0]]), units[case["n0"]])
-        x1 = mk(case["k1"], case["n1"], 1)
+            x0 = _G["ua"](np.array([[3.0, 2.5], [2.5, 3.0]]), hu0 if hu0 is not None else units[case["n0"]])
+        x1 = mk(case["k1"], case["n1"], 1, hu1)
         ops = [x0, x1]
     elif fam == "conv":
-        x0 = mk(case["k0"], case["n0"], 0)
-        tgt = units[case["n1"]]
+        x0 = mk(case["k0"], case["n0"], 0, hu0)
+        tgt = hu1 if hu1 is not None else units[case["n1"]]
         x1 = tgt if case["form"] == "obj" else _G["syms"][case["n1"]]  # the symbol, not str(unit): str(delta_degC) does not parse back (C20)
         ops = [x0]
     else:  # unitop
